@@ -313,6 +313,23 @@ def _run_grid(case, M):
                     info={**info, 'filter': vname, 'slice': list(idx), 'param_shape': list(shape)})
           M.check('factor_finite_on_padding', bool(np.all(np.isfinite(y))), info={**info, 'filter': vname})
           M.cover('array_parameter', f'{vname} {len(shape)}-d')
+          # leaves of LOWER rank than the array-valued strength travelling in the same pytree (a
+          # static [m,l] field, an [l] diagnostic, a scalar clock): there is no slice of the strength
+          # to pair them with; a filter never changes the shape of a leaf, and these come back as is
+          low = {'x': x, 'static_ml': rng.standard_normal(G.ms).astype(dt_),
+                 'diag_l': rng.standard_normal(G.ms[1:]).astype(dt_), 'clock': np.asarray(3.5, dt_)}
+          with np.errstate(all='ignore'):
+            ok2, out2 = M.no_raise('filter_accepts_mixed_pytree', lambda mk_arr=mk_arr: mk_arr()(low),
+                                   info={**info, 'filter': vname, 'param_shape': list(shape), 'tree': 'lower-rank leaves'})
+          if ok2:
+            for kname, leaf in low.items():
+              got = np.asarray(out2[kname])
+              M.check('filter_preserves_leaf_shape', got.shape == np.shape(leaf),
+                      info={**info, 'filter': vname, 'leaf': kname, 'in': list(np.shape(leaf)),
+                            'out': list(got.shape), 'param_shape': list(shape)})
+              if kname != 'x' and got.shape == np.shape(leaf):
+                M.same('array_parameter_keeps_lower_rank_leaves', got, np.asarray(leaf),
+                       info={**info, 'filter': vname, 'leaf': kname, 'param_shape': list(shape)})
 
     # -------------------------------------------------- mixed pytrees
     if t % 3 == 0 and G.ms[1] >= 4:
